@@ -122,25 +122,28 @@ func (w *world) broadcaster(id, nops int) {
 		yields := c.S.Plan(3)
 		cb := func(bc func(), getWaitCh func() <-chan struct{}) {
 			w.csEnter("broadcaster")
+			// the generation counter is advanced before the broadcast call: the
+			// close inside it is followed by a scheduling point, and a waiter woken
+			// there must already see the new generation
 			switch {
 			case mode <= 6:
 				w.st[comp]++
 				core.YieldN("bcastx.cs", yields)
-				bc()
 				w.gen++
+				bc()
 			case mode == 7:
-				bc()
 				w.gen++
+				bc()
 			case mode == 8:
 				w.sample(getWaitCh, "broadcaster")
 			default:
 				w.st[comp]++
-				bc()
 				w.gen++
+				bc()
 				core.YieldN("bcastx.cs", yields)
 				w.st[(comp+1)%3]++
-				bc()
 				w.gen++
+				bc()
 			}
 			w.checkB1("broadcaster-exit")
 			w.csLeave()
